@@ -5,6 +5,7 @@ package c15
 
 import (
 	iofs "io/fs"
+	"time"
 
 	"github.com/titpetric/vuego"
 
@@ -17,6 +18,43 @@ import (
 type hookFS struct {
 	m      *memfs.FS
 	onOpen func(name string)
+	// rotateZones: every Stat (and the Stat of every opened file) reports the file's mtime as
+	// the same instant spelled in another time zone than the time before
+	rotateZones bool
+	calls       int
+}
+
+var zones = []*time.Location{time.UTC, time.FixedZone("east", 5*3600+1800), time.FixedZone("west", -8*3600), time.Local}
+
+type zonedInfo struct {
+	iofs.FileInfo
+	loc *time.Location
+}
+
+func (z zonedInfo) ModTime() time.Time {
+	t := z.FileInfo.ModTime()
+	if t.IsZero() {
+		return t
+	}
+	return t.In(z.loc)
+}
+
+type zonedFile struct {
+	iofs.File
+	loc *time.Location
+}
+
+func (z zonedFile) Stat() (iofs.FileInfo, error) {
+	fi, err := z.File.Stat()
+	if err != nil {
+		return fi, err
+	}
+	return zonedInfo{fi, z.loc}, nil
+}
+
+func (h *hookFS) nextZone() *time.Location {
+	h.calls++
+	return zones[h.calls%len(zones)]
 }
 
 func (h *hookFS) Open(name string) (iofs.File, error) {
@@ -24,9 +62,21 @@ func (h *hookFS) Open(name string) (iofs.File, error) {
 	if err == nil && h.onOpen != nil {
 		h.onOpen(name)
 	}
+	if err == nil && h.rotateZones {
+		if _, isDir := f.(iofs.ReadDirFile); !isDir {
+			return zonedFile{f, h.nextZone()}, nil
+		}
+	}
 	return f, err
 }
-func (h *hookFS) Stat(name string) (iofs.FileInfo, error)      { return h.m.Stat(name) }
+
+func (h *hookFS) Stat(name string) (iofs.FileInfo, error) {
+	fi, err := h.m.Stat(name)
+	if err == nil && h.rotateZones {
+		return zonedInfo{fi, h.nextZone()}, nil
+	}
+	return fi, err
+}
 func (h *hookFS) ReadDir(name string) ([]iofs.DirEntry, error) { return h.m.ReadDir(name) }
 
 // openOnly hides every optional interface (Stat, ReadDir ...) of a filesystem.
